@@ -328,6 +328,71 @@ func addrIsFresh(addr ssa.Value, depth int) bool {
 	return false
 }
 
+// sliceIsFresh: the slice value was built by this function activation from a literal / make / append chain on such a
+// slice (no loop-carried value): appending to it cannot write into a pre-existing backing array.
+func sliceIsFresh(v ssa.Value, depth int) bool {
+	if depth > 8 {
+		return false
+	}
+	switch x := v.(type) {
+	case *ssa.MakeSlice:
+		return true
+	case *ssa.Slice:
+		if _, ok := x.X.(*ssa.Alloc); ok {
+			return true
+		}
+	case *ssa.Call:
+		if b, ok := x.Call.Value.(*ssa.Builtin); ok && b.Name() == "append" {
+			return sliceIsFresh(x.Call.Args[0], depth+1)
+		}
+	}
+	return false
+}
+
+// candidatesBySignature: the functions a call through a function value can reach when the function type mentions an
+// unexported named type of a repository package (only that package can create such values): every function or
+// closure of the package with an identical signature.
+func (p *Program) candidatesBySignature(sig *types.Signature) []*ssa.Function {
+	var pkg *types.Package
+	tup := sig.Params()
+	for i := 0; i < tup.Len(); i++ {
+		t := tup.At(i).Type()
+		if ptr, ok := t.(*types.Pointer); ok {
+			t = ptr.Elem()
+		}
+		if n, ok := t.(*types.Named); ok && n.Obj().Pkg() != nil && !n.Obj().Exported() && strings.HasPrefix(n.Obj().Pkg().Path(), repoModule) {
+			pkg = n.Obj().Pkg()
+		}
+	}
+	if pkg == nil {
+		return nil
+	}
+	sp := p.Prog.Package(pkg)
+	if sp == nil {
+		return nil
+	}
+	var out []*ssa.Function
+	var visit func(f *ssa.Function)
+	visit = func(f *ssa.Function) {
+		if f.Signature.Recv() == nil && types.Identical(stripRecv(f.Signature), sig) && len(f.Blocks) > 0 {
+			out = append(out, f)
+		}
+		for _, an := range f.AnonFuncs {
+			visit(an)
+		}
+	}
+	for _, m := range sp.Members {
+		if f, ok := m.(*ssa.Function); ok {
+			visit(f)
+		}
+	}
+	return out
+}
+
+func stripRecv(sig *types.Signature) *types.Signature {
+	return types.NewSignatureType(nil, nil, nil, sig.Params(), sig.Results(), sig.Variadic())
+}
+
 func (p *Program) addrModset(addr ssa.Value, ms map[string]bool) {
 	if addrIsFresh(addr, 0) {
 		return
@@ -389,7 +454,9 @@ func (p *Program) callModset(c *ssa.CallCommon, ms map[string]bool) {
 		switch f.Name() {
 		case "append":
 			et := c.Args[0].Type().Underlying().(*types.Slice).Elem()
-			ms[elemComp(sortOf(et))] = true
+			if !sliceIsFresh(c.Args[0], 0) {
+				ms[elemComp(sortOf(et))] = true
+			}
 			ms["next"] = true
 		case "copy":
 			if st, ok := c.Args[0].Type().Underlying().(*types.Slice); ok {
@@ -408,6 +475,14 @@ func (p *Program) callModset(c *ssa.CallCommon, ms map[string]bool) {
 		if fs := possibleFuncs(c.Value, 0); fs != nil {
 			for _, f := range fs {
 				p.staticCallModset(f, c, ms)
+			}
+			return
+		}
+		if fs := p.candidatesBySignature(c.Signature()); len(fs) > 0 {
+			for _, f := range fs {
+				for n := range p.FuncModset(f) {
+					ms[n] = true
+				}
 			}
 			return
 		}
